@@ -2,16 +2,19 @@
 
 ID = "C12"
 
-PROP = {'lean_props': ['Comrak.Props.C12'],
+PROP = {'lean_props': ['Comrak.Props.C12', 'Comrak.Props.C11C12Canon'],
  'lean_audit': ['Comrak.Audit.C12'],
  'required_theorems': ['slice_length',
                        'slice_is_infix',
                        'contentMap_exact',
                        'contentMap_total',
                        'makeInline_in_line',
-                       'makeInline_matches_contentMap'],
+                       'makeInline_matches_contentMap',
+                       'canon_positions_denote_their_text'],
  'strength': 'partial: the content map of a leaf block is exact (no partially consumed tab) and make_inline turns a content index into the '
-             '1-based byte column of the source byte the map names; slices are contiguous parts of the source of the stated length. The rest of '
+             '1-based byte column of the source byte the map names; slices are contiguous parts of the source of the stated length. On the canonical class of C03 every claimed position '
+             'denotes the bytes its kind requires, for every document (canon_positions_denote_their_text; C03\'s correspondence ties those '
+             'positions to the real parser\'s). The rest of '
              'the parser (which runs become which nodes, delimiter spans, tables, autolinks) is reached by the search stage only, always at full '
              'volume; defects found on the pinned tree are listed findings.',
  'trusted_base': ['sliceFail in Comrak/Sourcepos.lean is the reading of "starts and ends on the construct\'s own delimiters or content" per kind; '
